@@ -402,7 +402,7 @@ def _tr_harnesses(groups, tier_filter=None):
                "settings": "real push_instruction; setting reported, nothing emitted",
                "two-op-leaf": "real leaf encoder (compile_instruction_mov / from_bases_dst_and_src) for this destination x source shape; registers and constants symbolic; full byte content",
                "two-op-step": "real push_instruction for this shape: number of bytes and address-counter step",
-               "two-op-dispatch": "real push_instruction, register/register shape: opcode base and leaf encoder chosen for the class (full content)"}[m["group"]]
+               "two-op-dispatch": "real push_instruction, register/register shape: the second emitted byte carries the opcode base of the class (only that element is read back)"}[m["group"]]
         hh = Harness("gen::tr::" + fn, key="enc." + fn, domain=TR + dom, timeout=3600 if m.get("heavy") else 900,
                      tier="quick" if m["quick"] else "thorough")
         hh.heavy = bool(m.get("heavy"))
@@ -427,7 +427,7 @@ def C02(tier):
                "counter + emitted bytes <= 255. Two-operand class: full content through the leaf encoders for 33 of the 48 destination x source "
                "shapes per class (the 15 shapes 'memory-address destination x operand-byte/memory source' exhaust CBMC's memory and are covered "
                "only by their source-only and destination-only halves), byte count + counter step through push_instruction for the 13 pairwise "
-               "shapes, opcode base/leaf dispatch through push_instruction on the register/register shape",
+               "shapes, opcode base of each class through push_instruction on the register/register shape (second byte only)",
         stubs=[NOLOG, "std::hash::RandomState::new -> fixed keys (kani::stub; removes getrandom from HashMap::new() in Translator::new(), hashing is never executed)",
                "core::mem::forget on instruction/step values at the end of each harness (drop glue of String/Vec is not the subject)"],
         assumptions=["NOT covered: the label table (HashMap<String,u8> insert/lookup, case handling), finish()'s substitution and the pairing of "
@@ -584,7 +584,7 @@ def C11(tier):
     hreal = Harness("h_asm::real_step_is_one_edge", key="asm-step.real-mode", domain="Real step mode with the counter automaton as the edge: exactly one edge per call")
     hreal.custom_confirm = sweep
     hs.append(hreal)
-    for kk, tr, tmo in ((100, "quick", 1500), (560, "thorough", 10800)):
+    for kk, tr, tmo in ((100, "quick", 1500), (220, "thorough", 7200)):
         h = Harness("h_asm::asm_step_long_k%d" % kk, key="asm-step.equiv", timeout=tmo, tier=tr,
                     domain="the clock edge replaced by a counter automaton (boundary until edge LEAVE, inside an instruction until edge BACK, "
                            "optional halt at edge HALT, start phase c0; all symbolic): the step must stop exactly at min(halt, BACK); covers steps "
@@ -633,8 +633,8 @@ def C11(tier):
     return dict(
         harnesses=hs + SEQ_H, kani_extra=[["-Z", "stubbing"]], generators=[lambda: _safe_gen()], post=post,
         bounds="equivalence: steps of at most 6 (quick) / 12 (thorough) clock edges for an arbitrary deterministic edge function (16 abstract "
-               "states), and steps of at most 100 (quick) / 560 (thorough) edges for a counter-shaped edge function (leave/back/halt positions and "
-               "start phase symbolic); the longest real step (DIV, quotient 255) is < 530 edges; termination: from the sequencer graph (all 256 first bytes, all inputs) + MUL/DIV ranking (C09)",
+               "states), and steps of at most 100 (quick) / 220 (thorough) edges for a counter-shaped edge function (leave/back/halt positions and "
+               "start phase symbolic); the longest real step (DIV, quotient 255) is < 530 edges and therefore outside both bounds (a 560-edge version ran out of memory after 100 min); termination: from the sequencer graph (all 256 first bytes, all inputs) + MUL/DIV ranking (C09)",
         stubs=[NOLOG, "RawMachine::trigger_clock_edge -> arbitrary deterministic automaton (kani::stub): the stepping loop is checked against "
                       "every possible behaviour of the edge; the edge itself is C01/C05/C09's subject"],
         assumptions=["step mode is not an input of the clock edge: trigger_clock_edge is a method of RawMachine, which does not contain the step mode (type-level fact)",
